@@ -519,6 +519,8 @@ type SpecEnv struct {
 	result []Val
 	pkg    string // package path for resolving bare function / const names
 	depth  int
+	seen   string // loop clauses of a map-range loop: ghost location of the keys produced so far
+	seenK  types.Type
 }
 
 func (env *SpecEnv) with(st *State) *SpecEnv {
@@ -941,6 +943,13 @@ func (env *SpecEnv) call(x *ast.CallExpr) Val {
 			specErr("unknown type %q", ts)
 		}
 		return Val{t: eq(app("i_tag", v.t), fmt.Sprint(vc.te.tagOf(t))), typ: boolT}
+	case "visited": // ghost: visited(k) - the map range of this loop has produced key k in an earlier iteration
+		if env.seen == "" {
+			specErr("visited() outside the clauses of a map-range loop")
+		}
+		k := env.rv(env.eval(x.Args[0]))
+		srt := LocInfo{Kind: "SEEN", Key: env.seenK}.sort(vc.te)
+		return Val{t: app("select", vc.he.get(env.st, env.seen, srt), k.t), typ: boolT}
 	case "called": // ghost: a direct call of that callee has been executed since entry, called(Name)
 		nm := exprText(x.Args[0])
 		return Val{t: vc.he.get(env.st, calledLoc(nm), "Bool"), typ: boolT}
